@@ -11,5 +11,6 @@ EXTRA = {
     "C05": (("gen_tables_time.py",), ()),
     # the source translators of docs/TRANSLATOR2.md (harness/src2coq.py): function bodies -> Generated/Tables<X>.v, tied to the
     # models by <Dir>/<Model>Src.v, property theorems restated in Props/<ID>Src.v
+    "C13": (("gen_tables_tonal.py",), ()),     # Scale.get, Key.get/semitones/__contains__/nearest_note -> Tonal/KeySrc.v, Props/C13Src.v
     "C14": (("gen_tables_mult.py",), ()),      # isobar/util.py make_clock_multiplier -> Clock/MultiplierSrc.v, Props/C14Src.v
 }
